@@ -90,13 +90,30 @@ func (f *chainFam) lgTake() *lgSnap {
 		s.bids[d] = new(big.Int)
 		s.supply[d] = f.c.App.BankKeeper.GetSupply(ctx, d).Amount.BigInt()
 	}
-	f.c.App.BankKeeper.IterateAllBalances(ctx, func(addr sdk.AccAddress, coin sdk.Coin) bool {
-		if want[coin.Denom] {
-			b := s.bal[f.lgClassOf(addr.String())][coin.Denom]
-			b.Add(b, coin.Amount.BigInt())
+	walked := func() (ok bool) {
+		defer func() {
+			if recover() != nil {
+				ok = false
+			}
+		}()
+		f.c.App.BankKeeper.IterateAllBalances(ctx, func(addr sdk.AccAddress, coin sdk.Coin) bool {
+			if want[coin.Denom] {
+				b := s.bal[f.lgClassOf(addr.String())][coin.Denom]
+				b.Add(b, coin.Amount.BigInt())
+			}
+			return false
+		})
+		return true
+	}()
+	if !walked {
+		// the bank store cannot be walked (a balance sits under a key that is not an address): the supply no longer equals
+		// the sum over accounts that can be named; shown as a conservation failure by zeroing the class sums
+		for _, c := range lgClasses {
+			for _, d := range lgDenoms {
+				s.bal[c][d] = new(big.Int)
+			}
 		}
-		return false
-	})
+	}
 	for _, b := range f.c.App.RnsKeeper.GetAllBids(ctx) {
 		cs, err := sdk.ParseCoinsNormalized(b.Price)
 		if err != nil {
